@@ -1,0 +1,81 @@
+// Copyright 2020-2025 Buf Technologies, Inc.
+//
+// Licensed under the Apache License, Version 2.0 (the "License");
+// you may not use this file except in compliance with the License.
+// You may obtain a copy of the License at
+//
+//      http://www.apache.org/licenses/LICENSE-2.0
+//
+// Unless required by applicable law or agreed to in writing, software
+// distributed under the License is distributed on an "AS IS" BASIS,
+// WITHOUT WARRANTIES OR CONDITIONS OF ANY KIND, either express or implied.
+// See the License for the specific language governing permissions and
+// limitations under the License.
+
+//go:build verif
+
+package netrc
+
+// Contracts for the gocv verifier (see /verif/DESIGN.md), author ca-W. Comment-only.
+// Trusted declarations (os.Stat, go-netrc Parse / Machine / Get, EnvContainer.Env): /verif/specs/C19_C20_extra.spec.
+//
+// C19 ".netrc machine for that host (or its default entry)": the machine handed to the token provider is built from
+// the entry whose name EQUALS the requested name; only when there is no such entry, from the default entry; else nil.
+// Errors from reading the file are returned as errors (never "no machine").
+//
+//@ func newMachine(name, login, password) (r)
+//@   property C19
+//@   ensures fields: r != nil && r.name == name && r.login == login && r.password == password
+//
+//@ pure func (m *machine) Password() (r)
+//@   property C19
+//@   ensures r == m.password
+//@ pure func (m *machine) Name() (r)
+//@   property C19
+//@   ensures r == m.name
+//@ pure func (m *machine) Login() (r)
+//@   property C19
+//@   ensures r == m.login
+//
+//@ func GetMachineForNameAndFilePath(name, filePath) (r, retErr)
+//@   property C19
+//@   modifies heap, ghost.j_osStat, ghost.w_statFails, ghost.w_statErr
+//@   ghost before "if os.IsNotExist(err)" w_statFails := ghost.w_statFails + 1
+//@   ghost before "if os.IsNotExist(err)" w_statErr := err
+//@   ensures stat-error-returned: ghost.w_statFails != old(ghost.w_statFails) && !os.IsNotExist(ghost.w_statErr) ==> retErr == ghost.w_statErr && retErr != nil && r == nil
+//@   ensures no-file-no-machine: ghost.w_statFails != old(ghost.w_statFails) && os.IsNotExist(ghost.w_statErr) ==> retErr == nil && r == nil
+//@   ensures parse-error-returned: ghost.w_statFails == old(ghost.w_statFails) && w_netrcErr(filePath) != nil ==> retErr == w_netrcErr(filePath) && r == nil
+//@   ensures exact-entry-wins: ghost.w_statFails == old(ghost.w_statFails) && w_netrcErr(filePath) == nil && w_netrcOf(filePath).Machine(name) != nil ==> retErr == nil && r != nil && typeOf(r) == typeId(*machine) && cast(*machine, r).password == w_netrcOf(filePath).Machine(name).Get("password") && cast(*machine, r).login == w_netrcOf(filePath).Machine(name).Get("login")
+//@   ensures exact-entry-name: ghost.w_statFails == old(ghost.w_statFails) && w_netrcErr(filePath) == nil && w_netrcOf(filePath).Machine(name) != nil && name != "default" ==> cast(*machine, r).name == name
+//@   ensures no-entry-no-machine: ghost.w_statFails == old(ghost.w_statFails) && w_netrcErr(filePath) == nil && w_netrcOf(filePath).Machine(name) == nil && w_netrcOf(filePath).Machine("default") == nil ==> retErr == nil && r == nil
+//@   ensures fallback-entry: ghost.w_statFails == old(ghost.w_statFails) && w_netrcErr(filePath) == nil && w_netrcOf(filePath).Machine(name) == nil && w_netrcOf(filePath).Machine("default") != nil ==> retErr == nil && r != nil && typeOf(r) == typeId(*machine) && cast(*machine, r).name == "" && cast(*machine, r).password == w_netrcOf(filePath).Machine("default").Get("password")
+// "its default entry": the code finds the fallback by the NAME "default", not by the IsDefault flag of the library; an
+// entry `machine default ...` (a host literally called "default") has that name too. A password that is handed out for a
+// host without an entry of its own must nevertheless come from the file's default entry only. This holds only because of
+// how go-netrc v1.0.0 parses the word `default` (clause parsed-host-named-default-is-empty of the trusted contract of Netrc.Machine; without it the
+// clause fails with the model: file "machine default login u password SECRET", name "buf.build").
+//@   ensures fallback-token-from-default-entry-only: ghost.w_statFails == old(ghost.w_statFails) && w_netrcErr(filePath) == nil && w_netrcOf(filePath).Machine(name) == nil && r != nil && cast(*machine, r).password != "" ==> w_netrcOf(filePath).Machine("default").IsDefault
+//@   canary ensures r == nil
+//@   canary ensures retErr != nil
+//
+// Where the file is: $NETRC if set, else $HOME/.netrc; a failure to find the home directory is an error.
+//@ pure func GetFilePath(envContainer) (r, err)
+//@   property C19
+//@   ensures netrc-variable-wins: envContainer.Env("NETRC") != "" ==> r == envContainer.Env("NETRC") && err == nil
+//@   ensures home-default: envContainer.Env("NETRC") == "" && second(app.HomeDirPath(envContainer)) == nil ==> err == nil && r == filepath.Join(first(app.HomeDirPath(envContainer)), ".netrc")
+//@   ensures no-home-is-an-error: envContainer.Env("NETRC") == "" && second(app.HomeDirPath(envContainer)) != nil ==> err == second(app.HomeDirPath(envContainer)) && r == ""
+//
+// The lookup is made with exactly the requested name in exactly that file; every error is passed on.
+// (Same clauses as GetMachineForNameAndFilePath, over the file path GetFilePath determines.)
+//@ func GetMachineForName(envContainer, name) (r, retErr)
+//@   property C19
+//@   modifies heap, ghost.j_osStat, ghost.w_statFails, ghost.w_statErr
+//@   ensures path-error-returned: second(GetFilePath(envContainer)) != nil ==> retErr == second(GetFilePath(envContainer)) && r == nil && ghost.w_statFails == old(ghost.w_statFails)
+//@   ensures stat-error-returned: second(GetFilePath(envContainer)) == nil && ghost.w_statFails != old(ghost.w_statFails) && !os.IsNotExist(ghost.w_statErr) ==> retErr == ghost.w_statErr && retErr != nil && r == nil
+//@   ensures no-file-no-machine: second(GetFilePath(envContainer)) == nil && ghost.w_statFails != old(ghost.w_statFails) && os.IsNotExist(ghost.w_statErr) ==> retErr == nil && r == nil
+//@   ensures parse-error-returned: second(GetFilePath(envContainer)) == nil && ghost.w_statFails == old(ghost.w_statFails) && w_netrcErr(first(GetFilePath(envContainer))) != nil ==> retErr == w_netrcErr(first(GetFilePath(envContainer))) && r == nil
+//@   ensures exact-entry-wins: second(GetFilePath(envContainer)) == nil && ghost.w_statFails == old(ghost.w_statFails) && w_netrcErr(first(GetFilePath(envContainer))) == nil && w_netrcOf(first(GetFilePath(envContainer))).Machine(name) != nil ==> retErr == nil && r != nil && typeOf(r) == typeId(*machine) && cast(*machine, r).password == w_netrcOf(first(GetFilePath(envContainer))).Machine(name).Get("password") && (name != "default" ==> cast(*machine, r).name == name)
+//@   ensures no-entry-no-machine: second(GetFilePath(envContainer)) == nil && ghost.w_statFails == old(ghost.w_statFails) && w_netrcErr(first(GetFilePath(envContainer))) == nil && w_netrcOf(first(GetFilePath(envContainer))).Machine(name) == nil && w_netrcOf(first(GetFilePath(envContainer))).Machine("default") == nil ==> retErr == nil && r == nil
+//@   ensures fallback-entry: second(GetFilePath(envContainer)) == nil && ghost.w_statFails == old(ghost.w_statFails) && w_netrcErr(first(GetFilePath(envContainer))) == nil && w_netrcOf(first(GetFilePath(envContainer))).Machine(name) == nil && w_netrcOf(first(GetFilePath(envContainer))).Machine("default") != nil ==> retErr == nil && r != nil && typeOf(r) == typeId(*machine) && cast(*machine, r).name == "" && cast(*machine, r).password == w_netrcOf(first(GetFilePath(envContainer))).Machine("default").Get("password")
+//@   canary ensures r == nil
+//@   canary ensures retErr != nil
